@@ -278,7 +278,12 @@ func ToValue(n *ttlvref.Node) ttlv.Value {
 	v := ttlv.Value{Tag: n.Tag}
 	switch n.Type {
 	case ttlvref.Structure:
-		s := ttlv.Struct{}
+		// (an empty structure is the nil slice for odd tags, the empty non-nil one for even tags: both are the Go value
+		// of "no children" - what `var kids ttlv.Struct` or a loop that appended nothing leaves behind)
+		var s ttlv.Struct
+		if n.Tag%2 == 0 {
+			s = ttlv.Struct{}
+		}
 		for _, k := range n.Kids {
 			s = append(s, ToValue(k))
 		}
@@ -296,7 +301,11 @@ func ToValue(n *ttlvref.Node) ttlv.Value {
 	case ttlvref.TextString:
 		v.Value = string(n.B)
 	case ttlvref.ByteString:
-		v.Value = append([]byte{}, n.B...)
+		if len(n.B) == 0 && n.Tag%2 == 1 {
+			v.Value = []byte(nil) // an empty byte string may be the nil slice just as well
+		} else {
+			v.Value = append([]byte{}, n.B...)
+		}
 	case ttlvref.DateTime:
 		v.Value = InZone(time.Unix(n.I, 0), int(n.I%1000003))
 	case ttlvref.Interval:
